@@ -23,6 +23,15 @@ impl builtins::Command for SuspendCommand {
             return Ok(ExecutionExitCode::InvalidUsage.into());
         }
 
+        // Without job control nobody could resume a stopped shell.
+        if !context.shell.options().enable_job_control
+            && !context.shell.options().interactive
+            && !self.force
+        {
+            writeln!(context.stderr(), "cannot suspend: no job control")?;
+            return Ok(ExecutionExitCode::GeneralError.into());
+        }
+
         #[expect(clippy::cast_possible_wrap)]
         brush_core::sys::signal::kill_process(
             std::process::id() as i32,
